@@ -66,8 +66,14 @@ def main():
         shutil.rmtree(wt, ignore_errors=True)
     out = f"/verif/seeded/{sid}"
     os.makedirs(out, exist_ok=True)
-    shutil.copy(patch, f"{out}/patch.diff"); shutil.copy(demo, f"{out}/demo.py")
-    meta["needs_to_manifest"] = open(notes).read() if os.path.exists(notes) else ""
+    old = json.load(open(f"{out}/meta.json")) if os.path.exists(f"{out}/meta.json") else {}
+    if os.path.abspath(patch) != os.path.abspath(f"{out}/patch.diff"):
+        shutil.copy(patch, f"{out}/patch.diff")
+    if os.path.abspath(demo) != os.path.abspath(f"{out}/demo.py"):
+        shutil.copy(demo, f"{out}/demo.py")
+    meta["needs_to_manifest"] = open(notes).read() if os.path.exists(notes) else old.get("needs_to_manifest", "")
+    if "suite" in old and "suite" not in meta:
+        meta["suite"] = old["suite"]
     ok = meta.get("demo_unchanged_exit") == 0 and meta.get("demo_patched_exit") not in (0, None) and meta.get("patch_applies")
     meta["confirmed"] = bool(ok)
     json.dump(meta, open(f"{out}/meta.json", "w"), indent=1)
